@@ -43,6 +43,11 @@ def main(argv=None) -> int:
 
         acc = Acc()
         violations: list[dict] = []
+        rdir = os.path.join(harness.VERIF, "replays")
+        if os.path.isdir(rdir):  # replay files of an earlier run of this check are stale
+            for fn in os.listdir(rdir):
+                if fn.startswith(prop + "_"):
+                    os.remove(os.path.join(rdir, fn))
         # 1. regression corpus (shrunk inputs of repaired defects): a failure is a violation
         for entry in harness.load_corpus(prop):
             acc.case("corpus")
@@ -69,22 +74,41 @@ def main(argv=None) -> int:
         # 3. the search
         tasks = mod.tasks(args.tier, seed)
         harness.run_tasks(tasks, acc)
-        # 4. one shrunk representative per bucket
-        for bucket, lst in sorted(acc.failures.items()):
+        search_s = time.time() - t0
+        # 4. shrunk representatives: per coarse bucket (text before "|") the most frequent and the
+        #    smallest fine buckets; everything else is only counted in the evidence
+        by_coarse: dict[str, list[str]] = {}
+        for bucket in acc.failures:
+            by_coarse.setdefault(bucket.split("|")[0], []).append(bucket)
+        chosen: list[str] = []
+        for coarse, fine in sorted(by_coarse.items()):
+            size = lambda b: min(len(harness.jkey(f_["case"])) for f_ in acc.failures[b])  # noqa: E731
+            picks = sorted(fine, key=lambda b: -acc.fail_counts[b])[:2] + sorted(fine, key=size)[:2]
+            for b in picks:
+                if b not in chosen:
+                    chosen.append(b)
+        chosen = chosen[:24]
+        budget = (40.0 if args.tier == "quick" else 180.0) / max(1, len(chosen))
+        seen_cases = set()
+        for bucket in chosen:
+            lst = acc.failures[bucket]
             rep = min(lst, key=lambda f_: len(harness.jkey(f_["case"])))
             if hasattr(mod, "candidates"):
                 kind = rep["kind"]
-                budget = 30.0 if args.tier == "quick" else 120.0
                 small = harness.minimize(
                     rep["case"],
                     lambda c: mod.candidates(kind, c),
                     lambda c: bool(fails(mod, kind, c, bucket))
                     and not (harness.KNOWN_ENABLED and hasattr(mod, "is_known") and mod.is_known(kind, c)),
-                    budget_s=budget / max(1, min(len(acc.failures), 6)),
+                    budget_s=budget,
                 )
                 again = fails(mod, kind, small, bucket)
                 if again:
                     rep = again[0]
+            key = harness.jkey(rep["case"])
+            if key in seen_cases:
+                continue
+            seen_cases.add(key)
             violations.append(rep)
         wall = time.time() - t0
         meta = dict(mod.META)
@@ -94,7 +118,7 @@ def main(argv=None) -> int:
             f"{prop} tier={args.tier} seed={seed} cases={acc.evaluations} "
             f"nontrivial={acc.nontrivial_exhaustive + len(acc.nontrivial)} "
             f"excluded_known={sum(acc.excluded_known.values())} timeouts={acc.timeouts} "
-            f"buckets={len(acc.failures)} wall={wall:.1f}s"
+            f"buckets={len(acc.failures)} search={search_s:.1f}s wall={wall:.1f}s"
         )
         if violations:
             for i, v in enumerate(violations):
